@@ -9,7 +9,7 @@ the harness (judged by the C01 Spec).  Nothing here looks at the engine model.
 
 Control stream (in order of occurrence):
 
-    cmd P | G | S n | BT t o | BC n o | BK k o | BM ent attr op thr2 o | BX n o | CLR | HP k | RST |
+    cmd P | G | S n | BT t o | BC n o | BK k o | BM ent attr op thr2 o | BX n o | CLR | HP k | HB k <breakpoint> | RST |
         SCH tgt kind A|R time daemon | FIN
     d <ordinal> <time> <kind>                 an event was processed (on_event observer)
     dm <ordinal> v v v …                      the watched attributes (3 per entity: level, inflight, _crashed;
@@ -85,6 +85,7 @@ structure Mon where
   pauseReq : Bool := false      -- pause() requested and not yet cleared by resume/step/reset
   bps : List B := []            -- registered breakpoints, in registration order
   hooks : List Nat := []        -- pausing on_event hooks (pause when events_processed = k)
+  adders : List (Nat × B) := [] -- on_event hooks that register a breakpoint when events_processed = k
   injected : Bool := false      -- an event was scheduled into the current run while it was paused
   preSched : Bool := false      -- an event was scheduled from outside before a run
   resets : Nat := 0
@@ -94,7 +95,7 @@ def sigBp := "control/breakpoint/not-paused-at-first-satisfying-delivery"
 
 /-- one call of run() / resume() / step(n), replayed over the events it processed.
     Returns (violation, breakpoints still registered, pause request pending). -/
-def walk (hooks : List Nat) (isStep : Bool) (after : Seen) :
+def walk (hooks : List Nat) (adders : List (Nat × B)) (isStep : Bool) (after : Seen) :
     List B → Bool → Option Nat → List D → Option String × List B × Bool
   | bps, pr, steps, [] =>
     let would := pr || steps == some 0
@@ -106,8 +107,11 @@ def walk (hooks : List Nat) (isStep : Bool) (after : Seen) :
     else if steps == some 0 then (some "control/step-not-exact", bps, pr)
     else
       let pr' := hooks.contains d.ord
+      -- hooks run before the registry is looked at: a breakpoint registered by a hook on this very
+      -- event is already in force for it, wherever in the run that happens
+      let bps := bps ++ (adders.filter (·.1 == d.ord)).map (·.2)
       let hits := bps.filter (·.hit d)
-      if hits.isEmpty then walk hooks isStep after bps pr' (steps.map (· - 1)) rest
+      if hits.isEmpty then walk hooks adders isStep after bps pr' (steps.map (· - 1)) rest
       else
         let bps' := bps.filter (fun b => !(b.hit d && b.oneShot))
         if !rest.isEmpty || !after.paused then (some sigBp, bps', pr') else (none, bps', pr')
@@ -123,7 +127,7 @@ def Mon.call (m : Mon) (pr0 : Bool) (steps : Option Nat) (isStep : Bool) (ds : L
     (some "control/processed-count-mismatch", { m with seen := after, started := true })
   else if !after.running && after.paused then (some "control/state-inconsistent", { m with seen := after })
   else
-    let r := walk m.hooks isStep after m.bps pr0 steps ds
+    let r := walk m.hooks m.adders isStep after m.bps pr0 steps ds
     (r.1, { m with seen := after, started := true, bps := r.2.1, pauseReq := r.2.2 })
 
 def seenOf (t : List String) : Seen :=
@@ -150,6 +154,17 @@ def segments : List D → List String → List (List D × Seen × Bool) × List 
 def quiet (segs : List (List D × Seen × Bool)) : Bool := segs.all (·.1.isEmpty)
 
 /-- one command with what was observed while it ran -/
+def parseB (c : List String) : Option B :=
+  match c with
+  | ["BT", t, o] => some { k := .time, arg := natD t, oneShot := natD o != 0 }
+  | ["BC", n, o] => some { k := .count, arg := natD n, oneShot := natD o != 0 }
+  | ["BK", k, o] => some { k := .type, arg := natD k, oneShot := natD o != 0 }
+  | ["BX", n, o] => some { k := .countEq, arg := natD n, oneShot := natD o != 0 }
+  | ["BM", x, a, op, thr2, o] =>
+    some { k := .metric, arg := natD x, oneShot := natD o != 0,
+           attr := if natD a < 3 then 3 * natD x + natD a else 1000000, op := op, thr2 := intD thr2 }
+  | _ => none
+
 def Mon.cmd (m : Mon) (c : List String) (segs : List (List D × Seen × Bool)) : Option String × Mon :=
   let last : Seen := (segs.getLast?.map (·.2.1)).getD m.seen
   let idle (m' : Mon) : Option String × Mon :=
@@ -169,6 +184,10 @@ def Mon.cmd (m : Mon) (c : List String) (segs : List (List D × Seen × Bool)) :
                                      attr := if natD a < 3 then 3 * natD x + natD a else 1000000, op := op, thr2 := intD thr2 }] }
   | ["CLR"] => idle { m with bps := [] }
   | ["HP", k] => idle { m with hooks := natD k :: m.hooks }
+  | "HB" :: k :: rest =>
+    match parseB rest with
+    | some b => idle { m with adders := m.adders ++ [(natD k, b)] }
+    | none => idle m
   | ["RST"] =>
     let m' := { m with started := false, seen := last, pauseReq := false, injected := false,
                        resets := m.resets + 1 }
